@@ -104,9 +104,10 @@ def main():
         if "error" in out:
             res, by = "no-compile", ""
         else:
-            rc, out = sh("CARGO_NET_OFFLINE=true cargo test --workspace --no-fail-fast --offline 2>&1 | grep -E '^test result|^error'", repo, 1200)
+            # the compile step ran above without a limit; the test binaries get 6 GB of address space and 10 minutes
+            rc, out = sh("CARGO_NET_OFFLINE=true cargo test --workspace --no-run --offline -q 2>&1 | tail -1; ulimit -v 6000000; CARGO_NET_OFFLINE=true timeout 600 cargo test --workspace --no-fail-fast --offline 2>&1 | grep -E '^test result|^error|memory allocation'", repo, 1500)
             failed = sum(int(m) for m in re.findall(r"(\d+) failed", out))
-            if rc == 124 or failed > 0 or "error" in out or "test result" not in out:
+            if rc == 124 or failed > 0 or "error" in out or "memory allocation" in out or "test result" not in out:
                 res, by = "killed-by-suite", ""
             else:
                 res, by = "SURVIVED-ALL", ""
@@ -118,8 +119,7 @@ def main():
                         res, by = "caught", c
                         break
                     if "MACHINERY" in out:
-                        res, by = "caught(machinery-error)", c
-                        break
+                        by += f"[machinery-error:{c}]"  # not a verdict (e.g. a wall cap on an overloaded machine): go on
         with open(tsv, "a") as fh:
             fh.write("\t".join([key[0], key[1], key[2], res, by, f"{time.time()-t0:.0f}s", ch[0][:120], ch[1][:120]]) + "\n")
     sh("git checkout -q -- .", repo, 60)
